@@ -137,6 +137,19 @@ def stress_case(item):
             r, _ = pj.run(['redo', '-j%d' % j, 'top'])
             rs = [r]
             expect_files = ['top', 'x', 'y'] + leaves
+        elif kind == 'crosspq':
+            # two processes that share dependencies cross-wise (acyclic): p -> w1..wk x y; q -> y; y -> x.  If a process
+            # acts on "a token / all jobs done" before it has recorded a job that just ended, it blocks on the other's
+            # lock while still holding its own job's lock.  k quick targets in front vary the number of earlier wake-ups.
+            _, k, j, rep = item
+            ws = ['w%d.w' % i for i in range(k)]
+            files = {'default.w.do': scen.leaf_do(), 'p.do': scen.node_do(ws + ['x', 'y'], '').replace('echo "S $1 $$ $PPID" >&9\n', 'echo "S $1 $$ $PPID" >&9\nsleep 0.3\n'),
+                     'q.do': scen.node_do(['y']), 'x.do': scen.leaf_do('sleep 0.3'),
+                     'y.do': scen.TRACE_HDR + 'echo "S $1 $$ $PPID" >&9\nsleep 1.2\nredo-ifchange x\necho y > $3\necho "E $1 $$ 0" >&9\n'}
+            pj = scen.Project(files, 'c09pq')
+            r, _ = pj.run(['redo', '-j%d' % j, 'p', 'q'], timeout=60, stuck_after=4.0)
+            rs = [r]
+            expect_files = ['p', 'q', 'x', 'y']
         elif kind == 'longwait':
             # a process that gave its slot away while waiting for a locked target finds every slot taken by long jobs
             # and has to wait for a token for more than a minute (bounded restatement of "any script duration")
@@ -258,6 +271,10 @@ def stress_items(tier, rnd):
                 for f in ('cheat', 'cheatf'):
                     for rep in range(1 if quick else 5):
                         items.append(('cheat', '%s%d' % (f, nsh), nsh + extra, own, rep))
+    for k in range(12):
+        for j in ((3,) if quick else (2, 3, 4)):
+            for rep in range(1 if quick else 3):
+                items.append(('crosspq', k, j, rep))
     if not quick:
         items += [('longwait', 75, False), ('longwait', 75, True)]
     # the tuples carry a repetition index only to make them distinct
@@ -275,7 +292,7 @@ RULE = ('layer 1 (systematic): a select()-gate in one redo process lets the harn
         'step to a depth bound, each path replayed from scratch (k<=3 children, 1-3 job slots, plain and nested one level, with and '
         'without log capture, with a failing child). layer 2 (stress): fans of 16-120 instant/jittered leaves at -j2..16 with own '
         'and inherited jobserver, the same target spelled several times on one command line, a second invocation arriving while a '
-        'target is being built, crossed dependency orders, 2-8 contending invocations, the followed job borrowing a slot after a lock hand-over (and starting a job on it), a process waiting more than a minute for a job token while two 75 s jobs hold every slot (thorough), random parallel histories. Oracle: no panic / '
+        'target is being built, crossed dependency orders (two shapes, 0-11 quick targets in front), 2-8 contending invocations, the followed job borrowing a slot after a lock hand-over (and starting a job on it), a process waiting more than a minute for a job token while two 75 s jobs hold every slot (thorough), random parallel histories. Oracle: no panic / '
         'abort text or status in any redo process, no confirmed stuck state, exit 0 whenever all scripts succeed, tokens conserved '
         'on gate paths. Non-trivial: gate path with >=2 wake-ups, every stress build. Distinct: hash of scenario parameters and the '
         'delivered event sets.')
